@@ -238,8 +238,25 @@ extern "C" int harness_main()
 				if (g_kind >= K_URECVFROM && g_kind <= K_UWAITR) g_upeer->send_to(asio::buffer(g_data, 3), udp::endpoint(SA, 6000), 0, e2);
 			});
 		}
+		// timers: two bystander timers due at exactly the same instant as the timer under test, one armed before
+		// it and one after it: whatever happens to the timer under test, their waits complete, once, successfully
+		asio::high_resolution_timer* tie[2] = {nullptr, nullptr};
+		static int tie_done[2], tie_ec[2]; static long tie_t[2];
+		tie_done[0] = tie_done[1] = 0;
+		if (g_kind == K_TIMER)
+		{
+			tie[0] = new asio::high_resolution_timer(cios);
+			tie[0]->expires_after(duration(5000000));
+			tie[0]->async_wait([](error_code const& e) { ++tie_done[0]; tie_ec[0] = ecv(e); tie_t[0] = now_ns(); });
+		}
 		boundary b; g_stepper = &b; install_hook();
 		start_op(0);
+		if (g_kind == K_TIMER)
+		{
+			tie[1] = new asio::high_resolution_timer(cios);
+			tie[1]->expires_after(duration(5000000));
+			tie[1]->async_wait([](error_code const& e) { ++tie_done[1]; tie_ec[1] = ecv(e); tie_t[1] = now_ns(); });
+		}
 		if (g_intervention != I_NONE && g_when < 0) intervene();
 		try
 		{
@@ -285,6 +302,12 @@ extern "C" int harness_main()
 			s.run();
 			vp_assert((g_r[2].invoked == 1) & (g_r[2].ec == 0), 16);
 		}
+		if (!threw && g_kind == K_TIMER)
+		{
+			long const t_start = tie_t[0] - 5000000;
+			vp_assert((tie_done[0] == 1) & (tie_ec[0] == 0), 19);
+			vp_assert((tie_done[1] == 1) & (tie_ec[1] == 0) & (tie_t[1] == tie_t[0]) & (t_start >= 0), 19);
+		}
 		// every other object keeps behaving: whatever happens to the connecting socket, the acceptor's pending accept
 		// either completes with that connection or stays pending - it is never aborted
 		if (!threw && g_kind == K_CONNECT)
@@ -295,6 +318,7 @@ extern "C" int harness_main()
 		// ---- tear everything down: whatever is still outstanding is aborted exactly once; ... and the simulation
 		// is safe to destroy (also after a throw)
 		g_in_call = true;
+		delete tie[0]; delete tie[1];
 		delete g_res; delete g_timer; delete g_aux_timer; delete g_usock; delete g_upeer;
 		delete g_cli; delete g_srv; delete g_srv2; delete g_acc; delete g_peer_accepted;
 		g_in_call = false;
